@@ -21,8 +21,15 @@ theorem copy_coherent (par : Option Nat) (pidx : Option Int) (t : T) (n : Nat) :
     Coherent (copyT par pidx t n).1 := Main.copy_coherent par pidx t n
 
 /-- The copy handed out by the `copy` operation is a coherent program of its own. -/
-theorem copy_result_coherent (p : Path) (kp : Bool) (s : St) (c : T)
+theorem copy_result_coherent (p : Path) (kp : CopyPar) (s : St) (c : T)
     (h : (applyR (.copy p kp) s).out = some c) : Coherent c := Main.copy_result_coherent p kp s c h
+
+/-- `copy_tree_structure(new_parent=…)`: the copy's root has exactly the requested parent — the original's
+(default), none (`new_parent=None`), or the given loop, be it childless or not — and no recorded position. -/
+theorem copy_parent_requested (p : Path) (kp : CopyPar) (s : St) (c : T)
+    (h : (applyR (.copy p kp) s).out = some c) :
+    ∃ n, locate s.tree p = some n ∧ c.info.par = kp.request n ∧ c.info.pidx = none :=
+  Main.copy_parent_requested p kp s c h
 
 /-- Every public operation (query, append_child, item / slice assignment, waveform / repetition
 setters, unroll, unroll_children, split_one_child, encapsulate, _merge_single_child, cleanup,
